@@ -5,18 +5,74 @@ use crate::Types;
 use crate::raft_log::wal::callback::Callback;
 
 /// Payload with an explicit small length; encodes as 1 length byte + `n` bytes.
-#[derive(Debug, Clone, Copy, PartialEq, Eq, Default)]
-pub(crate) struct P {
+///
+/// `PAD` bytes of in-memory padding (never encoded) make `Append` the largest
+/// variant of `WALRecord<T>`. Without it the largest variant is `State`, rustc
+/// encodes the discriminant of `WALRecord` in the niche of an Option tag inside
+/// that variant, and CBMC's symbolic execution can no longer constant-fold a
+/// `match` on a `WALRecord` or on `Result<(Segment, WALRecord), io::Error>`:
+/// every such match was explored in all arms (measured: rotation 73 s symex and
+/// out of memory -> 11 s; DESIGN.md section 3.5).
+#[derive(Debug, Clone, Copy)]
+pub(crate) struct PN<const PAD: usize> {
     pub n: u8,
     pub b: u8,
+    pub pad: [u8; PAD],
 }
 
+/// unpadded payload: `KTypes`, `WTypes` (harnesses that inject a state and run
+/// one operation; there the padding only costs - measured +40 % on C01)
+pub(crate) type P = PN<0>;
+/// padded payload of `RTypes` (State<(u8,u8)> is 14 bytes): harnesses that
+/// replay chunk files or rotate chunks
+pub(crate) type PR = PN<14>;
+
+/// what the reference model needs from a payload type
+pub(crate) trait Pay: Copy {
+    fn nb(&self) -> (u8, u8);
+    fn mk(n: u8, b: u8) -> Self;
+}
+
+impl<const PAD: usize> Pay for PN<PAD> {
+    fn nb(&self) -> (u8, u8) {
+        (self.n, self.b)
+    }
+    fn mk(n: u8, b: u8) -> Self {
+        Self::new(n, b)
+    }
+}
+
+/// the narrow instantiations, as far as the model is concerned
+pub(crate) trait Narrow: Types<LogId = (u8, u8), Vote = (u8, u8), UserData = u8, LogPayload: Pay> {}
+impl Narrow for KTypes {}
+impl Narrow for RTypes {}
+
 pub(crate) const P_MAX: u8 = 3;
+
+impl<const PAD: usize> PN<PAD> {
+    pub(crate) const fn new(n: u8, b: u8) -> Self {
+        PN { n, b, pad: [0; PAD] }
+    }
+}
+
+// the padding is not part of the value (a derived `==` would be a memcmp loop)
+impl<const PAD: usize> PartialEq for PN<PAD> {
+    fn eq(&self, o: &Self) -> bool {
+        self.n == o.n && self.b == o.b
+    }
+}
+impl<const PAD: usize> Eq for PN<PAD> {}
+
+impl<const PAD: usize> Default for PN<PAD> {
+    fn default() -> Self {
+        Self::new(0, 0)
+    }
+}
 
 // Both directions move one byte per call so that every read/write has a
 // concrete size for CBMC (a symbolic-length memcpy + CRC update is what makes
 // variable-length payloads expensive); only the *number* of calls is symbolic.
-impl codeq::Encode for P {
+impl<const PAD: usize> codeq::Encode for PN<PAD> {
     fn encode<W: io::Write>(&self, mut w: W) -> Result<usize, io::Error> {
         w.write_all(&[self.n])?;
         let mut i = 0u8;
@@ -30,37 +86,41 @@ impl codeq::Encode for P {
     }
 }
 
-impl codeq::Decode for P {
+impl<const PAD: usize> codeq::Decode for PN<PAD> {
     fn decode<R: io::Read>(mut r: R) -> Result<Self, io::Error> {
         let mut one = [0u8; 1];
         r.read_exact(&mut one)?;
         let n = one[0];
         if n > P_MAX {
-            return Err(io::Error::from(io::ErrorKind::InvalidData));
+            return Err(crate::kani_support::stubs::mk_err(io::ErrorKind::InvalidData));
         }
         let mut b = 0u8;
         let mut i = 0u8;
         while i < P_MAX {
             if i < n {
                 r.read_exact(&mut one)?;
-                if i > 0 && one[0] != b {
-                    return Err(io::Error::from(io::ErrorKind::InvalidData));
+                // the padded instantiation accepts any bytes and keeps the last:
+                // comparing two reads of the same symbolic byte is a branch
+                // CBMC's symbolic execution does not fold, and its error arm
+                // poisons the file position for everything that follows
+                if PAD == 0 && i > 0 && one[0] != b {
+                    return Err(crate::kani_support::stubs::mk_err(io::ErrorKind::InvalidData));
                 }
                 b = one[0];
             }
             i += 1;
         }
-        Ok(P { n, b })
+        Ok(Self::new(n, b))
     }
 }
 
 #[cfg(kani)]
-impl kani::Arbitrary for P {
+impl<const PAD: usize> kani::Arbitrary for PN<PAD> {
     fn any() -> Self {
         let n: u8 = kani::any();
         kani::assume(n <= P_MAX);
         let b: u8 = if n == 0 { 0 } else { kani::any() };
-        P { n, b }
+        Self::new(n, b)
     }
 }
 
@@ -84,6 +144,26 @@ pub(crate) struct KTypes;
 impl Types for KTypes {
     type LogId = (u8, u8);
     type LogPayload = P;
+    type Vote = (u8, u8);
+    type Callback = GhostCb;
+    type UserData = u8;
+
+    fn log_index(log_id: &Self::LogId) -> u64 {
+        log_id.1 as u64
+    }
+
+    fn payload_size(payload: &Self::LogPayload) -> u64 {
+        payload.n as u64
+    }
+}
+
+/// `KTypes` with the padded payload (see `PN`): replay and rotation harnesses.
+#[derive(Debug, Clone, PartialEq, Eq, Default)]
+pub(crate) struct RTypes;
+
+impl Types for RTypes {
+    type LogId = (u8, u8);
+    type LogPayload = PR;
     type Vote = (u8, u8);
     type Callback = GhostCb;
     type UserData = u8;
@@ -134,58 +214,5 @@ impl Types for STypes {
 
     fn payload_size(payload: &Self::LogPayload) -> u64 {
         payload.len() as u64
-    }
-}
-
-/// Payload for the `open` harnesses: same wire format as `P`, padded in memory
-/// so that `Append` (not `State`) is the largest variant of `WALRecord`. With
-/// `P`, rustc encodes the discriminant of `WALRecord<KTypes>` in the niche of an
-/// Option tag inside the `State` variant, and CBMC cannot constant-fold the
-/// discriminant of `Result<(Segment, WALRecord<_>), io::Error>` read from that
-/// niche (measured: every `match` on the result of `RecordIterator::next` was
-/// explored in all three arms). With an explicit tag byte it can.
-#[derive(Debug, Clone, Copy, PartialEq, Eq, Default)]
-pub(crate) struct PP {
-    pub n: u8,
-    pub b: u8,
-    pub pad: [u8; 14],
-}
-
-impl PP {
-    pub(crate) fn new(n: u8, b: u8) -> PP {
-        PP { n, b, pad: [0; 14] }
-    }
-}
-
-impl codeq::Encode for PP {
-    fn encode<W: io::Write>(&self, w: W) -> Result<usize, io::Error> {
-        P { n: self.n, b: self.b }.encode(w)
-    }
-}
-
-impl codeq::Decode for PP {
-    fn decode<R: io::Read>(r: R) -> Result<Self, io::Error> {
-        let p = P::decode(r)?;
-        Ok(PP::new(p.n, p.b))
-    }
-}
-
-/// `KTypes` with the padded payload.
-#[derive(Debug, Clone, PartialEq, Eq, Default)]
-pub(crate) struct OTypes;
-
-impl Types for OTypes {
-    type LogId = (u8, u8);
-    type LogPayload = PP;
-    type Vote = (u8, u8);
-    type Callback = GhostCb;
-    type UserData = u8;
-
-    fn log_index(log_id: &Self::LogId) -> u64 {
-        log_id.1 as u64
-    }
-
-    fn payload_size(payload: &Self::LogPayload) -> u64 {
-        payload.n as u64
     }
 }
